@@ -55,6 +55,8 @@ struct PageReq {
     page: Option<usize>,
     fault: PageFault,
     has_state: bool,
+    /// When the node answers (or closes the connection).
+    t_answer: u64,
 }
 
 #[derive(Default)]
@@ -114,6 +116,7 @@ impl Script for C07Script {
             page,
             fault,
             has_state: params.paging_state.is_some(),
+            t_answer: 0,
         });
         let Some(j) = page else {
             w.violation(
@@ -140,6 +143,15 @@ impl Script for C07Script {
             };
         }
         let delay = w.think();
+        let delay = if fault == PageFault::Slow {
+            w.fault(Fault::Delay);
+            tape::range("c07:slow", SEC, 4 * SEC)
+        } else {
+            delay
+        };
+        if let Some(r) = self.reqs.get_mut(&m).and_then(|v| v.last_mut()) {
+            r.t_answer = w.now() + delay;
+        }
         match fault {
             PageFault::Retryable(k) => {
                 let (code, extra) = match k {
@@ -183,12 +195,6 @@ impl Script for C07Script {
                 new_metadata_id: None,
             },
         );
-        let delay = if fault == PageFault::Slow {
-            w.fault(Fault::Delay);
-            tape::range("c07:slow", SEC, 4 * SEC)
-        } else {
-            delay
-        };
         Reply::Raw {
             opcode: wire::OP_RESULT,
             body,
@@ -325,6 +331,12 @@ async fn main(plan: Plan) -> Outcome {
         w.script = Some(Box::new(C07Script::default()));
     }
     let default_retry = !tape::chance("c07:fallthrough", 1, 4);
+    // 1 in 4 runs: speculative execution of the (idempotent) page requests.
+    let speculative: Option<(usize, u64)> = if tape::chance("c07:speculative", 1, 4) {
+        Some((tape::range("c07:spec_max", 1, 2) as usize, [20, 50, 200][tape::choose("c07:spec_interval", 3) as usize]))
+    } else {
+        None
+    };
     let cfg = SessionCfg {
         contact_nodes: vec![0],
         pool: PoolSize::PerHost(NonZeroUsize::new(1).unwrap()),
@@ -337,6 +349,24 @@ async fn main(plan: Plan) -> Outcome {
         compression: client::draw_compression(),
         ..SessionCfg::default()
     };
+    let mut cfg = cfg;
+    if let Some((max, interval_ms)) = speculative {
+        let retry: Arc<dyn scylla::policies::retry::RetryPolicy> =
+            if default_retry { Arc::new(DefaultRetryPolicy::new()) } else { Arc::new(FallthroughRetryPolicy) };
+        cfg.profile = Some(
+            scylla::client::execution_profile::ExecutionProfile::builder()
+                .request_timeout(None)
+                .retry_policy(retry)
+                .speculative_execution_policy(Some(Arc::new(
+                    scylla::policies::speculative_execution::SimpleSpeculativeExecutionPolicy {
+                        max_retry_count: max,
+                        retry_interval: Duration::from_millis(interval_ms),
+                    },
+                )))
+                .build(),
+        );
+        out.count("speculative_runs", 1);
+    }
     let session = match client::build_session(&cfg).await {
         Ok(s) => Arc::new(s),
         Err(e) => {
@@ -538,6 +568,29 @@ async fn main(plan: Plan) -> Outcome {
                 if r.has_state || p != 0 {
                     out.violation("c07.first_request_has_state", ctx.clone());
                 }
+            } else if let Some((max, _)) = speculative {
+                // Speculative copies travel to other nodes: arrival order across nodes is
+                // not sending order, so the chain is judged by time instead of position.
+                // A request for page p is legal as long as the client may not yet have
+                // received a successful answer for p (first successful answer + a round
+                // trip: 2 x 2 ms latency, timer granularity, coalescing, fragmentation ->
+                // 20 ms), at most 1 + max copies are outstanding at once, and - sanity -
+                // page p-1 had been answered successfully before (the state is unguessable).
+                let ok = |r: &PageReq| matches!(r.fault, PageFault::None | PageFault::Slow);
+                let first_ok = reqs.iter().filter(|e| e.page == Some(p) && ok(e)).map(|e| e.t_answer).min();
+                if let Some(t_ok) = first_ok {
+                    if r.t > t_ok + 20 * MS {
+                        out.violation("c07.page_requested_twice", format!("page {p} requested again {} ms after it was delivered (speculative run): {ctx}", (r.t - t_ok) / MS));
+                    }
+                }
+                let outstanding = reqs[..k].iter().filter(|e| e.page == Some(p) && e.t_answer > r.t).count();
+                if outstanding > max {
+                    out.violation("c07.page_requested_twice", format!("{} copies of the request for page {p} outstanding with max {max} speculative executions: {ctx}", outstanding + 1));
+                }
+                if p > 0 && !reqs.iter().any(|e| e.page == Some(p - 1) && ok(e) && e.t_answer <= r.t) {
+                    out.violation("c07.page_skipped", format!("page {p} requested although page {} had not been delivered (speculative run): {ctx}", p - 1));
+                }
+                expected_page = expected_page.max(p);
             } else if p == expected_page {
                 // Same page again: only legal after the previous attempt at it failed.
                 if prev_ok {
